@@ -182,7 +182,7 @@ func cmdCheck(args []string) int {
 				if r.Unit.Contract != nil && r.Unit.Contract.Flags["thorough"] {
 					lk += "+thorough"
 				}
-				seenNames[lk+"|"+r.Obl.Name] = true
+				seenNames[lk+"|"+ledgerKey(r.Obl.Name)] = true
 			}
 			oe := oblEvidence{Name: r.Obl.Name, Class: r.Obl.Class, Config: cfg.Name, Status: r.Status, Solver: r.Solver, Ms: r.Ms, VCBytes: r.VCBytes}
 			obls = append(obls, oe)
@@ -242,7 +242,7 @@ func cmdCheck(args []string) int {
 			if !ledgerPinned(n) {
 				continue // entry written by an earlier version of the ledger
 			}
-			if !seenNames[n] {
+			if !seenNames[ledgerKey(n)] {
 				nObl++
 				parts := strings.SplitN(n, "|", 2)
 				violate(parts[1], parts[0], nil, nil, "obligation listed in the ledger was not generated (contract no longer binds, function or loop vanished)", nil)
@@ -337,4 +337,14 @@ func ledgerPinned(name string) bool {
 		}
 	}
 	return true
+}
+
+// ledgerKey: the name under which an obligation is pinned. A written loop invariant produces one
+// inv-step obligation per back edge (and invariant) of the loop; how many back edges a loop has
+// changes with harmless restructuring of its body (merged continue statements), so what is
+// pinned is "the loop's invariant is checked at its back edges", not each edge.
+var invStepIdx = regexp.MustCompile(`(#inv-step@(?:.*/)?loop\d+)\[\d+\]$`)
+
+func ledgerKey(name string) string {
+	return invStepIdx.ReplaceAllString(name, "$1")
 }
